@@ -72,7 +72,27 @@ impl PropertyName {
 impl ToInternedString for PropertyName {
     fn to_interned_string(&self, interner: &Interner) -> String {
         match self {
-            Self::Literal(key) => interner.resolve_expect(key.sym()).to_string(),
+            Self::Literal(key) => {
+                let name = interner.resolve_expect(key.sym());
+                // Only names that are certainly an `IdentifierName` or a decimal index can be
+                // printed bare; anything else (`"a b"`, `"x-y"`, `""`) needs the quotes back.
+                let bare = name.utf8().is_some_and(|s| {
+                    let mut chars = s.chars();
+                    let ident = chars
+                        .next()
+                        .is_some_and(|c| c.is_ascii_alphabetic() || c == '_' || c == '$')
+                        && chars.all(|c| c.is_ascii_alphanumeric() || c == '_' || c == '$');
+                    let index = !s.is_empty()
+                        && s.bytes().all(|b| b.is_ascii_digit())
+                        && (s == "0" || !s.starts_with('0'));
+                    ident || index
+                });
+                if bare {
+                    name.to_string()
+                } else {
+                    format!("\"{}\"", crate::escape_string_units(name.utf16(), '"'))
+                }
+            }
             Self::Computed(key) => format!("[{}]", key.to_interned_string(interner)),
         }
     }
